@@ -91,16 +91,17 @@ Proof.
   - destruct (lookup t id) as [en|]; [|exact H].
     destruct ((e_peer en =? from) && e_tx en); [apply nodup_insert; exact H|exact H].
   - apply nodup_remove; exact H.
-  - exact H.
+  - destruct (lookup t id) as [en|]; [apply nodup_insert; exact H|exact H].
 Qed.
 
 (* a reply completes a request only with that request's id, from the contacted peer, once *)
 Lemma deliver_match t id from pl t' i p :
   step t (Deliver id from pl) = (t', Some (i, p)) ->
-  i = id /\ p = pl /\ exists en, lookup t id = Some en /\ e_peer en = from /\ e_tx en = true.
+  i = id /\ p = pl /\ exists en, lookup t id = Some en /\ e_peer en = from /\ e_tx en = true /\ e_rx en = true.
 Proof.
   cbn [step]. destruct (lookup t id) as [en|] eqn:L; [|discriminate].
   destruct ((e_peer en =? from) && e_tx en) eqn:C; [|discriminate].
+  destruct (e_rx en) eqn:R; [|discriminate].
   intro H. inversion H; subst. apply andb_true_iff in C. destruct C as [C1 C2].
   apply N.eqb_eq in C1. repeat split. exists en. auto.
 Qed.
@@ -121,10 +122,11 @@ Lemma step_isolation t e j :
   | Send _ _ _ _ => False
   end -> lookup (fst (step t e)) j = lookup t j.
 Proof.
-  destruct e as [id peer now to|id from pl|id|id]; cbn [step fst]; intro H; [tauto| | |reflexivity].
+  destruct e as [id peer now to|id from pl|id|id]; cbn [step]; intro H; [tauto| | |].
   - destruct (lookup t id) as [en|]; [|reflexivity].
-    destruct ((e_peer en =? from) && e_tx en); [apply lookup_insert_other; exact H|reflexivity].
-  - apply lookup_remove_other; exact H.
+    destruct ((e_peer en =? from) && e_tx en); cbn [fst]; [apply lookup_insert_other; exact H|reflexivity].
+  - cbn [fst]. apply lookup_remove_other; exact H.
+  - destruct (lookup t id) as [en|]; cbn [fst]; [apply lookup_insert_other; exact H|reflexivity].
 Qed.
 
 (* a new request leaves every other live (non-expired) entry as it was *)
@@ -182,12 +184,17 @@ Proof.
       * unfold spent. rewrite Hl. exact Hs.
       * destruct (lookup t i) as [en|]; [|reflexivity].
         destruct ((e_peer en =? from) && e_tx en); [|reflexivity].
+        destruct (e_rx en); [|reflexivity].
         cbn [snd completions_of flat_map app]. apply N.eqb_neq in E. rewrite E. reflexivity.
   - cbn [fst snd completions_of flat_map app]. split; [|reflexivity].
     unfold spent. destruct (N.eq_dec i id) as [E|E].
     + subst. left. apply lookup_remove_same.
     + rewrite lookup_remove_other by congruence. exact Hs.
-  - cbn [fst snd completions_of flat_map app]. split; [exact Hs|reflexivity].
+  - destruct (lookup t i) as [en|] eqn:L; cbn [fst snd completions_of flat_map app]; [|split; [exact Hs|reflexivity]].
+    split; [|reflexivity]. unfold spent. destruct (N.eq_dec i id) as [E|E].
+    + subst i. destruct Hs as [Hs|[en' [Hs Ht]]]; [congruence|].
+      rewrite Hs in L. inversion L; subst en'. right. eexists. rewrite lookup_insert_same. split; [reflexivity|exact Ht].
+    + rewrite lookup_insert_other by congruence. exact Hs.
 Qed.
 
 Lemma completions_cons id o os : completions_of id (o :: os) = completions_of id [o] ++ completions_of id os.
@@ -229,11 +236,11 @@ Proof.
   - (* Deliver *)
     destruct (snd (step t (Deliver i from pl))) as [[i' p']|] eqn:Eo.
     + destruct (step t (Deliver i from pl)) as [t1 o] eqn:Es. cbn [snd] in Eo. subst o.
-      destruct (deliver_match _ _ _ _ _ _ _ Es) as [Hi [Hp [en [Hl [Hpeer Htx]]]]]. subst i' p'.
+      destruct (deliver_match _ _ _ _ _ _ _ Es) as [Hi [Hp [en [Hl [Hpeer [Htx Hrx]]]]]]. subst i' p'.
       destruct (N.eq_dec i id) as [E|E].
       * subst i. (* this is the one completion; afterwards the entry is spent *)
         assert (Hsp : spent (fst (t1, Some (id, pl))) id).
-        { cbn [fst]. cbn [step] in Es. rewrite Hl, Hpeer, N.eqb_refl, Htx in Es. cbn [andb] in Es.
+        { cbn [fst]. cbn [step] in Es. rewrite Hl, Hpeer, N.eqb_refl, Htx, Hrx in Es. cbn [andb] in Es.
           inversion Es; subst. right. eexists. rewrite lookup_insert_same. split; reflexivity. }
         rewrite (spent_run evs (fst (t1, Some (id, pl))) id).
         -- cbn [completions_of flat_map app]. rewrite N.eqb_refl. cbn. lia.
@@ -259,8 +266,14 @@ Proof.
     cbn [step fst] in Hl'. destruct (N.eq_dec i id) as [E|E].
     + subst. rewrite lookup_remove_same in Hl'. congruence.
     + rewrite lookup_remove_other in Hl' by congruence. exact Hl'.
-  - (* Cancel *) cbn [step snd fst completions_of flat_map app length Nat.add].
-    apply IH; [exact Hn'|exact Hd'|]. exact Hf.
+  - (* Cancel *)
+    assert (Ho : snd (step t (Cancel i)) = None) by (cbn [step]; destruct (lookup t i); reflexivity).
+    rewrite Ho. cbn [completions_of flat_map app length Nat.add].
+    apply IH; [exact Hn'|exact Hd'|].
+    intros Hl' Hin. apply Hf; [|exact Hin].
+    destruct (N.eq_dec i id) as [E|E].
+    + subst i. intro Hnone. apply Hl'. cbn [step]. rewrite Hnone. cbn [fst]. exact Hnone.
+    + rewrite step_isolation in Hl' by congruence. exact Hl'.
 Qed.
 
 Lemma at_most_once evs id : NoDup (send_ids evs) ->
